@@ -93,6 +93,18 @@ that runs without the optional dependency (it is defined outside every `if …__
 with an `if not …__available__: raise` guard) uses a module-level name that is bound only inside such a block -/
 theorem C20_optional_names_confined : Refs.optionalLeaks = [] := by decide +kernel
 
+/-- every object that the package enters with a `with` statement is KNOWN to support the context-manager protocol in the
+installed libraries: it is the result of a documented context-manager function (`open`, `tarfile.open`, …), an instance
+of a class of the installed numpy / scipy / h5py / standard library that defines `__enter__` and `__exit__`
+(`np.errstate`), or an instance of a class of the package that defines them. An interface can exist as a NAME over the
+whole declared range while the protocol of the object it returns does not (h5py 3.9 removed the context-manager
+protocol of `Dataset.astype(...)`): every attribute resolves, and only this table sees the difference -/
+theorem C20_with_items_support_protocol :
+    ∀ w ∈ Refs.withItems, w.resolved = true := by
+  have h : Refs.withItems.all (fun w => w.resolved) = true := by decide +kernel
+  intro w hw
+  exact (List.all_eq_true.mp h) w hw
+
 /-! non-vacuity: the tables are not empty and contain unguarded references that are checked -/
 example : 100 < Refs.refs.length ∧ 10 < Env.modules.length := by decide +kernel
 example : (Refs.refs.filter (fun r => !r.guarded)).length > 100 := by decide +kernel
@@ -105,3 +117,4 @@ example : (Refs.imports.filter (fun i => !i.declared && !i.optional)).length = 0
 example : 20 < Refs.syntaxTable.length ∧ Refs.declaredPython = (3, 6) := by decide +kernel
 example : 20 < Refs.kwrefs.length ∧ 10 < Env.signatures.length := by decide +kernel
 example : 5 < Refs.optionalOnlyNames := by decide +kernel
+example : 5 < Refs.withItems.length := by decide +kernel
